@@ -1,5 +1,27 @@
 """Registry of claimed checks (source for MANIFEST.json via bin/gen_manifest.py)."""
 BASELINE_CMD = ("cd /repo && /venv/bin/python -m pytest -ra -q -p no:cacheprovider --timeout=900 "
                 "--continue-on-collection-errors")
-CHECKS = {}
+CHECKS = {
+    'C04': dict(
+        category='proof',
+        text=('Deductive proof, for symbolic numbers of observations (n >= 1) and mechanistic parameters (p >= 0) and all real '
+              'values in the support, that each of the four error models returns the documented normalised log-density '
+              '(value, pointwise values and their sum), -inf exactly outside the support, and a gradient equal to the '
+              'mechanically derived derivative of that specification (mechanistic block through the supplied output '
+              'sensitivities, then error parameters), of length p + n_parameters.  The real function bodies '
+              '(public wrapper + kernel) are executed on symbolic tensors; every identity is closed by the Sigma-normal-form '
+              'rewriter with z3 side conditions; each run cross-checks the symbolic model against the native functions.'),
+        design_ref='DESIGN.md section 4 (C04), sections 2-3',
+        note=('Floats are mathematical reals (IEEE nan/inf arithmetic outside the proof); the symbolic numpy model of pvc/tensor.py '
+              '(conformance-checked on every run, not proved); sympy, z3; canonical Normal/LogNormal density tables '
+              '(normalisation re-derived by sympy integration).  Precondition: per-observation standard deviation > 0 '
+              '(outputs > 0 for the multiplicative and log-normal models).'),
+        technique='contract-based deductive verification: symbolic execution of the real function bodies + Sigma-normal-form/z3 discharge of postconditions',
+    ),
+}
 NOT_APPLICABLE = {}
+
+# property id -> contract module (a module may exist before the property is claimed in CHECKS)
+CHECK_MODULES = {
+    'C04': 'contracts.c04',
+}
